@@ -60,6 +60,21 @@ Theorem C18_decode_consumes_at_most_four_bytes_per_character : forall fuel e fin
 Proof. exact ByteBound.decode_bounds. Qed.
 Eval vm_compute in "ASSUME:C18_decode_consumes_at_most_four_bytes_per_character"%string. Print Assumptions C18_decode_consumes_at_most_four_bytes_per_character.
 
+(* KIND C18_nonvacuous : F *)
+(* the premises of the two demand bounds are met by ordinary readers: a text stream "abcdefgh" and a UTF-8 byte stream, both handed out in short
+   reads; after determine_encoding five units are consumed; a demand beyond the buffer reads on (3 more units) without reaching the end *)
+Example C18_nonvacuous :
+  let s := {| sdata_b := []; sdata_s := [97;98;99;100;101;102;103;104]%N; is_text := true; sizes := [3;2;5] |} in
+  let b := {| sdata_b := [97;195;169;98;99;100;101;102]%N; sdata_s := []; is_text := false; sizes := [2;3;5] |} in
+  match init_stream s, init_stream b with
+  | Ok r, Ok q =>
+      ((exists s', strm r = Some s' /\ is_text s' = true) /\ rawb r = RawStr [] /\ eof r = false /\ List.length (buffer r) = 5 /\ stream_pointer r = 5 /\
+       match update_loop 10 7 r with Ok r' => eof r' = false /\ stream_pointer r' = 8 /\ List.length (buffer r') = 8 | _ => False end) /\
+      ((exists s', strm q = Some s' /\ is_text s' = false) /\ rawb q = RawBytes [] /\ encd q = Some Utf8 /\ eof q = false /\ List.length (buffer q) = 4 /\ stream_pointer q = 5 /\
+       match update_loop 10 6 q with Ok q' => eof q' = false /\ stream_pointer q' = 8 /\ List.length (buffer q') = 7 | _ => False end)
+  | _, _ => False end.
+Proof. vm_compute. repeat split; try reflexivity; eexists; split; reflexivity. Qed.
+
 (* PARTIAL: token_lookahead_bounded and
    lazy_prefix_determinism are not proved; decided by the reader correspondence (stream pointer and read() log after every demand) and the direct run that
    records the stream offset each time a document is delivered.  Generator finalisation (dispose on close) is CPython behaviour, observed only. *)
